@@ -68,7 +68,7 @@ def run(ctx):
             lines.append("MT %s %s %d %s" % (ty, bo, prefix, " ".join(toks)))
         else:
             lines.append("MP %s %d %s" % (bo, prefix, " ".join(toks)))
-    ok, impl, err = vlib.par_run_lines(exe, [], lines)
+    ok, impl, err = vlib.par_run_lines(exe, [], lines, robust=True)
     if not ok:
         ctx.tie_broken("wire harness crashed", err)
         return
@@ -98,6 +98,10 @@ def run(ctx):
         ctx.count("kind:" + t[0])
         ctx.count("impl:" + fi["res"])
         ctx.count("with_bad_leaf" if bad else "all_leaves_valid")
+        if fi["res"] in ("CRASH", "PANIC"):
+            ctx.disagreements_checked += 1
+            ctx.violation("marshalling crashed the process or panicked (%s)" % li[:60], {"line": line, "model_line": mline, "impl": li, "model_and_spec": lm})
+            continue
         if fi["res"] not in ("ok", "err") or fm["res"] not in ("ok", "err"):
             ctx.tie_broken("unexpected output", "%s\nimpl: %s\nmodel: %s" % (line, li, lm))
             continue
